@@ -607,6 +607,7 @@ impl Manip {
         if self.0 == Which::C05 && st.call_consolidation != st.consolidation {
             // "become adjacent" is only defined where pre-existing adjacency cannot occur (DESIGN §5 C05)
             ctx.count("exhaustive.mixed_consolidation_states_skipped");
+            self.mixed_take_out(st, idx, ctx);
             return;
         }
         let probe = match build_state(st, false) {
@@ -662,6 +663,107 @@ impl Manip {
                     .set("calls", J::s(format!("every operation kind x every ordered pair of the {} live nodes", n)))
             });
         }
+    }
+
+    /// C05 on the mixed states (adjacent text built with consolidation off, then switched on): the full model
+    /// comparison is not defined there, but one clause is - taking a node out from between two text nodes makes
+    /// those two *become* adjacent, so with consolidation on they must end up merged into the earlier one and
+    /// the character data of the parent must be exactly what is left (seed C05-27).
+    fn mixed_take_out(&self, st: &StartState, idx: u64, ctx: &mut Ctx) {
+        let probe = match build_state(st, false) {
+            Ok(f) => f,
+            Err(_) => return,
+        };
+        let n_live = probe.live_handles().len();
+        for i in 0..n_live {
+            for kind in 0..4usize {
+                let mut f = match build_state(st, false) {
+                    Ok(f) => f,
+                    Err(_) => return,
+                };
+                let l = f.live_handles();
+                if l.len() != n_live {
+                    ctx.count("harness_nondeterministic_build");
+                    return;
+                }
+                let node = l[i];
+                // the destination of the two move kinds: the root element of the second tree
+                let dest = match l.iter().copied().find(|n| {
+                    f.xot.is_element(*n) && f.xot.parent(*n).is_none() && f.xot.first_child(*n).map_or(false, |c| f.xot.text_str(c) == Some("zz"))
+                }) {
+                    Some(d) => d,
+                    None => return,
+                };
+                let setup = guard(|| {
+                    let x = &f.xot;
+                    let parent = x.parent(node)?;
+                    let prev = x.previous_sibling(node)?;
+                    let next = x.next_sibling(node)?;
+                    let pt = x.text_str(prev)?.to_string();
+                    let nt = x.text_str(next)?.to_string();
+                    if !x.is_text(node) && !x.is_comment(node) && !x.is_element(node) {
+                        return None;
+                    }
+                    // what the parent's character data has to be afterwards: that of the children that stay, in order
+                    let expected: String = x.children(parent).take(64).filter(|c| *c != node && (x.is_text(*c) || x.is_element(*c))).map(|c| x.string_value(c)).collect();
+                    Some((parent, prev, next, pt, nt, expected))
+                });
+                let (parent, prev, next, pt, nt, expected_sv) = match setup {
+                    Ok(Some(t)) => t,
+                    _ => continue,
+                };
+                let start = f.show_real();
+                let (name, res) = match kind {
+                    0 => ("remove", guard(|| f.xot.remove(node))),
+                    1 => ("detach", guard(|| f.xot.detach(node))),
+                    2 => ("append", guard(|| f.xot.append(dest, node))),
+                    _ => ("prepend", guard(|| f.xot.prepend(dest, node))),
+                };
+                ctx.count("mixed_take_out.calls");
+                match res {
+                    Ok(Ok(())) => {}
+                    // refusals and panics are C06's business
+                    _ => continue,
+                }
+                let after = guard(|| {
+                    let x = &f.xot;
+                    let prev_live = !x.is_removed(prev) && x.parent(prev) == Some(parent);
+                    let prev_text = if prev_live { x.text_str(prev).map(|s| s.to_string()) } else { None };
+                    let next_still_child = !x.is_removed(next) && x.parent(next) == Some(parent);
+                    (prev_live, prev_text, next_still_child, x.string_value(parent))
+                });
+                let (prev_live, prev_text, next_still_child, after_sv) = match after {
+                    Ok(t) => t,
+                    Err(_) => continue,
+                };
+                let merged = prev_live && prev_text.as_deref().map_or(false, |t| t.starts_with(&format!("{}{}", pt, nt))) && !next_still_child;
+                if merged {
+                    ctx.count("mixed_take_out.merged");
+                } else {
+                    ctx.violation(
+                        "text nodes that become adjacent are merged into the earlier one (consolidation on)",
+                        format!("C05/mixed-take-out/{}/neighbours-not-merged", name),
+                        J::obj()
+                            .set("start", J::s(start.clone()))
+                            .set("call", J::s(format!("{}(node #{}) with text nodes {:?} and {:?} on either side, consolidation on (the start state was built with it off)", name, i, pt, nt)))
+                            .set("earlier_neighbour_after", J::s(format!("{:?}", prev_text)))
+                            .set("later_neighbour_still_a_child", J::Bool(next_still_child)),
+                    );
+                }
+                if after_sv != expected_sv {
+                    ctx.violation(
+                        "the concatenated character data of every ancestor is exactly what the move implies",
+                        format!("C05/mixed-take-out/{}/parent-string-value", name),
+                        J::obj()
+                            .set("start", J::s(start))
+                            .set("call", J::s(format!("{}(node #{})", name, i)))
+                            .set("expected", J::s(expected_sv))
+                            .set("got", J::s(after_sv)),
+                    );
+                }
+            }
+        }
+        ctx.nontrivial(idx.wrapping_mul(0x9E37_79B9) ^ 0xC05_27);
     }
 
     /// slot churn: > 40 000 remove/create cycles on one slot, all old handles kept (C04, F43)
